@@ -90,3 +90,10 @@ package dns
 //@   callsite "Write" octets: same(arg1, out) && err == nil && (called("Pack") ? same(out, callres("Pack", 0)) : same(out, callres("TsigGenerateWithProvider", 0)))
 //@   stored at "out, t.tsigRequestMAC, err = TsigGenerateWithProvider(m, tp, t.tsigRequestMAC, t.tsigTimersOnly)" mac: value == callres("TsigGenerateWithProvider", 1)
 //@   exit err: !called("Write") ==> ret0 != nil
+
+// which reader is started for an incoming transfer is decided by the question type alone: an AXFR query is read by
+// inAxfr, an IXFR query by inIxfr (whatever its SOA serial), on the query and the channel handed back
+//@ func (*Transfer).In [C15]
+//@   opt no-safety
+//@   callsite "inAxfr" axfr: q.Question[0].Qtype == 252 && arg1 == q && arg2 == env
+//@   callsite "inIxfr" ixfr: q.Question[0].Qtype == 251 && arg1 == q && arg2 == env
